@@ -31,7 +31,7 @@ def run(tier, seed, replay):
                 paths, _ = foreign.write_images(d, cid, descs)
                 bsb = rng.choice([9, 10, 11, 12, 12])
                 bsb = min(bsb, top.cluster_bits)
-                while top.size % (1 << bsb) and bsb > 9:
+                while any(dd.size % (1 << bsb) for dd in descs) and bsb > 9:   # every image of the chain is read at block granularity
                     bsb -= 1
                 sb = max(bsb, 9)
                 g = hist.Geom(top.cluster_bits, top.refcount_order, top.size, bsb, (sb, 4 << sb), (sb, 4 << sb))
@@ -49,7 +49,14 @@ def run(tier, seed, replay):
             l2e = csx // 8
             nl1 = rng.choice([3, 8])
             clusters = {gc: ('data', foreign.cluster_bytes(rng, csx, 'blocks')) for gc in rng.sample(range(0, l2e), 3)}
-            desc = qimg.ImageDesc(version=3, cluster_bits=cbx, refcount_order=4, size=l2e * nl1 * csx, clusters=clusters, l1_minimal=True)
+            # the header carries extensions as other tools write them (feature name table of 8 x 48 bytes, an unknown
+            # extension): its serialized form can be longer than one block and not a multiple of the block size
+            exts = []
+            if rng.random() < 0.7 and cbx >= 10:
+                names = b''.join(bytes([t, b]) + (b'feat%d' % b).ljust(46, b'\0') for t, b in [(0, 0), (0, 1), (0, 2), (0, 3), (0, 4), (1, 0), (2, 0), (2, 1)])
+                exts.append((0x6803f857, names))
+                exts.append((0x12345678, bytes(rng.getrandbits(8) for _ in range(rng.choice([3, 24, 100])))))
+            desc = qimg.ImageDesc(version=3, cluster_bits=cbx, refcount_order=4, size=l2e * nl1 * csx, clusters=clusters, l1_minimal=True, extensions=exts)
             try:
                 paths, _ = foreign.write_images(d, cid, [desc])
                 bsb = min(rng.choice([9, 10, 12]), cbx)
